@@ -67,3 +67,23 @@ def reset_tables():
 def loads(text):
     reset_tables()
     return blackbird.loads(text)
+
+
+_FILE_DIR = None
+
+
+def load_via_file(text):
+    """the same script through blackbird.load: written byte for byte to a scratch file (ASCII texts only: load decodes ASCII)"""
+    global _FILE_DIR
+    import atexit
+    import os
+    import shutil
+    import tempfile
+    if _FILE_DIR is None:
+        _FILE_DIR = tempfile.mkdtemp(prefix="bbverif.", dir="/var/tmp")
+        atexit.register(shutil.rmtree, _FILE_DIR, True)
+    path = os.path.join(_FILE_DIR, "script.xbb")
+    with open(path, "w", newline="", encoding="ascii") as f:
+        f.write(text)
+    reset_tables()
+    return blackbird.load(path)
